@@ -798,6 +798,18 @@ impl Xot {
                         content,
                         span: _,
                     } => {
+                        // the target xml (in any case) is reserved; the
+                        // tokenizer lets it through in some positions
+                        // https://www.w3.org/TR/xml/#NT-PITarget
+                        if target.as_str().eq_ignore_ascii_case("xml") {
+                            return Err(ParseError::XmlParser(
+                                xmlparser::Error::InvalidPI(
+                                    xmlparser::StreamError::InvalidName,
+                                    tokenizer.stream().gen_text_pos_from(target.start()),
+                                ),
+                                target.start(),
+                            ));
+                        }
                         let node_id = builder.processing_instruction(
                             target.as_str(),
                             content.map(|s| s.as_str()),
